@@ -61,6 +61,21 @@ def run(ck, an, tier):
     s2(ck, an, pm)
     s3(ck, an)
     s4(ck, an, pm)
+    registered_once(ck, an, pm)
+
+
+def registered_once(ck, an, pm):
+    """Metrics are attached to the pandas classes by the to_pandas decorator; a second definition of a listed metric on another
+    holder class (a Series-only or DataFrame-only override) would shadow the shared one for that type only: a Series and its
+    one-column frame would disagree, and the formula / scale clauses decided on PandasMetrics would no longer describe what runs."""
+    holders = [c for c in an.prog.classes.values() if c.module is pm.module and c is not pm and any(any("to_pandas" in d for d in m.decorators) for m in c.methods.values())]
+    ck.floor("other classes registering pandas methods", len(holders), 1)
+    shared = {n for n, m in pm.methods.items() if any("to_pandas" in d for d in m.decorators)}
+    for c in holders:
+        for n, m in c.methods.items():
+            if any("to_pandas" in d for d in m.decorators):
+                ck.check(n not in shared, "MRO", "S2.metric-registered-once", f"{c.name}.{n}", m.loc, f"{c.name}.{n} does not shadow a shared metric",
+                         f"{c.name}.{n} is registered on a pandas class on top of PandasMetrics.{n}: that type now computes {n} differently from the others", construct=f"{c.name}.{n}")
 
 
 def s1(ck, an, pm):
